@@ -503,3 +503,33 @@ def r_swaprows(idx, rep, rule="R-SWAPROWS"):
                       "wrong witnesses while depth and direction stay right)" % "; ".join(bad[:2]), "parallel for all index pairs")
     if n == 0:
         rep.unknown(rule, M_ + "|row-moving helpers", m.relpath, "no helper of (v, v1, v2, <row indices>) found")
+
+
+def r_sameRow(idx, rep, rule="R-SAMEROW", floor=2):
+    """read side of the parallel containers of MPR: wherever ONE arithmetic expression combines rows of the two support containers (v1 = support points of
+    collider 1, v2 = of collider 2), it combines the SAME row of both — `0.5 * (v1[k] + v2[k])`, `b[k] * v1[k]` next to `b[k] * v2[k]`: a contact position
+    built from support point k of one collider and support point j of the other is not on the contact."""
+    rep.rule(rule, "mpr: an expression that reads constant rows of both support containers (v1, v2) reads the same rows of both", floor=floor)
+    m = idx.module("distance3d.mpr")
+    for f in sorted(m.functions.values(), key=lambda f: f.key):
+        if f.cls is not None:
+            continue
+        for st in iter_stmts(f.node.body):
+            if not isinstance(st, (ast.Assign, ast.Return, ast.AugAssign)) or st.value is None:
+                continue
+            if isinstance(st, ast.Assign) and any(isinstance(t, (ast.Subscript, ast.Tuple)) for t in st.targets):
+                continue          # row stores / tuple moves are R-PAR's business
+            rows = {}
+            for n in ast.walk(st.value):
+                if isinstance(n, ast.Subscript):
+                    base = u(n.value).split(".")[-1]
+                    k = const(n.slice)
+                    if base in ("v1", "v2") and isinstance(k, int) and not isinstance(k, bool):
+                        rows.setdefault(base, []).append(k)
+            if set(rows) != {"v1", "v2"}:
+                continue
+            key = "%s|`%s`" % (f.key, u(st)[:70])
+            rep.check(sorted(rows["v1"]) == sorted(rows["v2"]), rule, key, "%s:%d" % (f.module.relpath, st.lineno),
+                      "`%s` combines rows %s of the support points of collider 1 with rows %s of collider 2: row k of v1 and row k of v2 are the two halves of ONE "
+                      "Minkowski support point; mixing rows gives a contact position that does not lie on both colliders" % (u(st)[:90], sorted(rows["v1"]), sorted(rows["v2"])),
+                      "rows %s of both" % sorted(rows["v1"]))
